@@ -2,6 +2,7 @@ package modifiers
 
 import (
 	"encoding/json"
+	"slices"
 
 	"github.com/nyaruka/gocommon/urns"
 	"github.com/nyaruka/goflow/assets"
@@ -48,6 +49,7 @@ func NewURNs(urnz []urns.URN, modification URNsModification) *URNsModifier {
 // Apply applies this modification to the given contact
 func (m *URNsModifier) Apply(eng flows.Engine, env envs.Environment, sa flows.SessionAssets, contact *flows.Contact, log flows.EventCallback) bool {
 	modified := false
+	oldURNs := contact.URNs().RawURNs()
 
 	if m.Modification == URNsSet {
 		modified = contact.ClearURNs()
@@ -60,11 +62,16 @@ func (m *URNsModifier) Apply(eng flows.Engine, env envs.Environment, sa flows.Se
 			log(events.NewErrorf("'%s' is not valid URN", urn))
 		} else {
 			if m.Modification == URNsAppend || m.Modification == URNsSet {
-				modified = contact.AddURN(urn, nil)
+				modified = contact.AddURN(urn, nil) || modified
 			} else {
-				modified = contact.RemoveURN(urn)
+				modified = contact.RemoveURN(urn) || modified
 			}
 		}
+	}
+
+	// setting the URNs to exactly what they were is not a modification
+	if m.Modification == URNsSet && slices.Equal(oldURNs, contact.URNs().RawURNs()) {
+		modified = false
 	}
 
 	if modified {
